@@ -250,6 +250,19 @@ def main():
     for ident in ("HasFlushFailure", "PurgeOlderThan", "RecoverWithOptions"):
         if ident not in body_mask:
             die("tick body no longer mentions %s" % ident)
+    # schedule point: the tick reads walWriter.CurrentFile() and only then lets recovery scan
+    # the directory; ingest (and so a WAL rotation) is live in between. The only edit to the
+    # verbatim body is one hook call inserted in front of the RecoverWithOptions statement.
+    tl = tick_text.split("\n")
+    hits = [i for i, ln in enumerate(tl) if re.match(r"^\s*stats, err := recovery\.RecoverWithOptions\(", ln)]
+    if len(hits) != 1:
+        die("tick body: expected exactly one `stats, err := recovery.RecoverWithOptions(` statement, found %d" % len(hits))
+    cur = [i for i, ln in enumerate(tl) if "walWriter.CurrentFile()" in ln]
+    if len(cur) != 1 or not cur[0] < hits[0]:
+        die("tick body: walWriter.CurrentFile() is no longer read (once) before the recovery call")
+    ind0 = re.match(r"^\s*", tl[hits[0]]).group(0)
+    tl.insert(hits[0], ind0 + "if verifC07TickHook != nil {\n" + ind0 + "\tverifC07TickHook(\"after-currentfile-before-recover\")\n" + ind0 + "}")
+    tick_text = "\n".join(tl)
 
     # ---- (c) startup recovery
     rc = find_one(mask, r"(?m)^\t+recoveryCallback := createWALRecoveryCallback\(", "recoveryCallback :=", main_open, main_close)
@@ -297,6 +310,9 @@ def main():
                "\t\"github.com/rs/zerolog/log\"\n)\n")
     out.append("var (\n\t_ = context.Background\n\t_ = time.Second\n\t_ = logger.Get\n\t_ = metrics.Get\n"
                "\t_ = log.Info\n\t_ zerolog.Logger\n\t_ *config.Config\n\t_ shutdown.ShutdownFunc\n)\n")
+    out.append("// verifC07TickHook is the only instrumentation: a schedule point inside the maintenance tick,")
+    out.append("// between its walWriter.CurrentFile() read and the recovery scan.")
+    out.append("var verifC07TickHook func(point string)\n")
     out.append("// verifC07RegistrationNames lists the lifted registrations in source order.")
     out.append("var verifC07RegistrationNames = []string{%s}\n" % ", ".join('"%s"' % n for n in names))
     out.append("func verifC07WireShutdown(shutdownCoordinator *shutdown.Coordinator, walWriter *wal.Writer, "
